@@ -107,51 +107,7 @@ fn crafted(kind: Kind, n: u32, e: usize) -> Vec<Vec<u8>> {
     out
 }
 
-/// Writer builder that keeps nothing (the harness must not hold memory that grows with traffic).
-struct NullBuilder {
-    writers: std::cell::Cell<u64>,
-}
-struct NullWriter;
-impl flute::receiver::writer::ObjectWriterBuilder for NullBuilder {
-    fn new_object_writer(
-        &self,
-        _e: &flute::core::UDPEndpoint,
-        _tsi: &u64,
-        _toi: &u128,
-        _meta: &flute::receiver::writer::ObjectMetadata,
-        _now: std::time::SystemTime,
-    ) -> flute::receiver::writer::ObjectWriterBuilderResult {
-        self.writers.set(self.writers.get() + 1);
-        flute::receiver::writer::ObjectWriterBuilderResult::StoreObject(Box::new(NullWriter))
-    }
-    fn update_cache_control(&self, _e: &flute::core::UDPEndpoint, _tsi: &u64, _toi: &u128, _meta: &flute::receiver::writer::ObjectMetadata, _now: std::time::SystemTime) {}
-    fn fdt_received(
-        &self,
-        _e: &flute::core::UDPEndpoint,
-        _tsi: &u64,
-        _xml: &str,
-        _expires: std::time::SystemTime,
-        _meta: &flute::receiver::writer::ObjectMetadata,
-        _d: std::time::Duration,
-        _now: std::time::SystemTime,
-        _ext: Option<std::time::SystemTime>,
-    ) {
-    }
-}
-impl flute::receiver::writer::ObjectWriter for NullWriter {
-    fn open(&self, _now: std::time::SystemTime) -> flute::error::Result<()> {
-        Ok(())
-    }
-    fn write(&self, _sbn: u32, _data: &[u8], _now: std::time::SystemTime) -> flute::error::Result<()> {
-        Ok(())
-    }
-    fn complete(&self, _now: std::time::SystemTime) {}
-    fn error(&self, _now: std::time::SystemTime) {}
-    fn interrupted(&self, _now: std::time::SystemTime) {}
-    fn enable_md5_check(&self) -> bool {
-        false
-    }
-}
+use crate::monitor::NullBuilder;
 
 struct Rr {
     recv: Option<flute::receiver::MultiReceiver>,
@@ -258,7 +214,7 @@ pub fn run(scn: &Scn, ctx: &Ctx, scratch: &Path) {
         return;
     }
     let baseline = alloc::live();
-    let builder = std::rc::Rc::new(NullBuilder { writers: std::cell::Cell::new(0) });
+    let builder = std::rc::Rc::new(NullBuilder::default());
     let mut rr = Rr { recv: Some(flute::receiver::MultiReceiver::new(builder.clone(), Some(recv.config()), false)) };
     let ep = EndpointSpec::default_ep().build();
     let base_recv = alloc::live();
@@ -450,7 +406,7 @@ fn run_fdt_updates(scn: &Scn, ctx: &Ctx, scratch: &Path, recv: &RecvSpec) {
         Some(x) => x,
         None => return,
     };
-    let builder = std::rc::Rc::new(NullBuilder { writers: std::cell::Cell::new(0) });
+    let builder = std::rc::Rc::new(NullBuilder::default());
     let mut rr = Rr { recv: Some(flute::receiver::MultiReceiver::new(builder, Some(recv.config()), false)) };
     let ep = EndpointSpec::default_ep().build();
     let mut last_obj_pkt = 0u64;
